@@ -52,25 +52,59 @@ Definition own_glyph (o : oracle) (s : grid cell) (r c : nat) : scell :=
   match gget s r c with
   | Some x =>
       match ckind x with
-      | KChar ch => if cw o ch =? 2 then (WL ch, cface x) else (glyph_of ch, cface x)
+      | KChar ch => if cw o ch =? 2 then (WL ch, cface x) else cell_of o ch (cface x)
       | _ => (Blank, cface x)
       end
   | None => (Blank, face_default)
   end.
 
+(* a cell is hidden when the cell on its left holds a wide character that is itself shown
+   (a wide character directly behind a shown wide character is not shown, and then does not hide
+   its own right-hand neighbour): the left-to-right rule of any painter *)
+Fixpoint hidden (o : oracle) (s : grid cell) (r c : nat) : bool :=
+  match c with
+  | O => false
+  | S c' => match gget s r c' with
+            | Some x => is_wide o x && negb (hidden o s r c')
+            | None => false
+            end
+  end.
+
+(* the face of the shown wide character on the left, if there is one *)
 Definition left_wide (o : oracle) (s : grid cell) (r c : nat) : option face :=
   match c with
   | S c' => match gget s r c' with
-            | Some x => if is_wide o x then Some (cface x) else None
+            | Some x => if is_wide o x && negb (hidden o s r c') then Some (cface x) else None
             | None => None
             end
   | O => None
   end.
 
+Lemma left_wide_hidden : forall o s r c, left_wide o s r c = None <-> hidden o s r c = false.
+Proof.
+  intros o s r [|c']; simpl. tauto.
+  destruct (gget s r c') as [x|]; [|tauto].
+  destruct (is_wide o x && negb (hidden o s r c')); split; intro; congruence.
+Qed.
+
+Lemma left_wide_some : forall o s r c f, left_wide o s r c = Some f ->
+  exists c' x, c = S c' /\ gget s r c' = Some x /\ is_wide o x = true /\ hidden o s r c' = false /\ cface x = f.
+Proof.
+  intros o s r [|c'] f H; simpl in H. discriminate.
+  destruct (gget s r c') as [x|] eqn:Ex; [|discriminate].
+  destruct (is_wide o x) eqn:Ew; simpl in H; [|discriminate].
+  destruct (hidden o s r c') eqn:Eh; simpl in H; [discriminate|].
+  inversion H. exists c', x. auto.
+Qed.
+
+Lemma hidden_S : forall o s r c x, gget s r c = Some x -> is_wide o x = true -> hidden o s r c = false ->
+  hidden o s r (S c) = true /\ left_wide o s r (S c) = Some (cface x).
+Proof. intros o s r c x Hx Hw Hh. simpl. rewrite Hx, Hw, Hh. auto. Qed.
+
 Definition den (o : oracle) (h w : nat) (s : grid cell) (r c : nat) : scell :=
   match cover_img o h w s r c with
   | Some (r0, c0) =>
-      match img_at s r0 c0 with Some (f, _) => (Blank, f) | None => (Blank, face_default) end
+      match img_at s r0 c0 with Some (f, _) => (Blank, ferase o f) | None => (Blank, face_default) end
   | None =>
       match left_wide o s r c with
       | Some f => (WR, f)
@@ -107,6 +141,8 @@ Definition cell_good (o : oracle) (w c : nat) (x : cell) : Prop :=
   end.
 
 (* the multi-cell object owned by x at (r0, c0) occupies (r, c) *)
+Definition is_img (x : cell) : Prop := exists i, ckind x = KImg i.
+
 Definition occupies (o : oracle) (x : cell) (r0 c0 r c : nat) : Prop :=
   match ckind x with
   | KChar ch => cw o ch = 2 /\ r = r0 /\ c0 <= c < c0 + 2
@@ -120,7 +156,9 @@ Record Good (o : oracle) (h w : nat) (s : grid cell) : Prop := {
   good_disjoint : forall r c r1 c1 r2 c2 x1 x2,
       r < h -> c < w ->
       gget s r1 c1 = Some x1 -> gget s r2 c2 = Some x2 ->
-      occupies o x1 r1 c1 r c -> occupies o x2 r2 c2 r c -> r1 = r2 /\ c1 = c2 }.
+      occupies o x1 r1 c1 r c -> occupies o x2 r2 c2 r c ->
+      (* images share cells with nothing; wide characters may hide one another *)
+      is_img x1 \/ is_img x2 -> r1 = r2 /\ c1 = c2 }.
 
 (* ---------- cover_img ---------- *)
 Lemma cover_img_some : forall o h w s r c r0 c0,
@@ -166,7 +204,7 @@ Section GoodFacts.
   (* under an image: the covering image is unique, so den shows its face *)
   Lemma den_under_img : forall r0 c0 f i r c,
     img_at s r0 c0 = Some (f, i) -> in_rect o r0 c0 i r c = true -> r < h -> c < w ->
-    den o h w s r c = (Blank, f).
+    den o h w s r c = (Blank, ferase o f).
   Proof.
     intros r0 c0 f i r c Hi Hin Hr Hc. unfold den.
     destruct (cover_img o h w s r c) as [[r1 c1]|] eqn:E.
@@ -176,6 +214,7 @@ Section GoodFacts.
       destruct (good_disjoint _ _ _ _ HG r c r0 c0 r1 c1 x x1 Hr Hc Hx Hx1) as [-> ->].
       + unfold occupies. rewrite Hk. exact Hin.
       + unfold occupies. rewrite Hk1. exact Hin1.
+      + left. exists i. exact Hk.
       + rewrite Hi1. rewrite Hx in Hx1. inversion Hx1; subst. reflexivity.
     - exfalso.
       assert (Hb : r0 < h /\ c0 < w).
@@ -183,7 +222,7 @@ Section GoodFacts.
       rewrite (cover_img_none o h w s r c r0 c0 f i E) in Hin by tauto. discriminate.
   Qed.
 
-  (* a wide character: neither of its cells is under an image or behind another wide character *)
+  (* a wide character (shown or not): neither of the cells it would occupy is under an image *)
   Lemma wide_not_covered : forall r c x ch k,
     gget s r c = Some x -> ckind x = KChar ch -> cw o ch = 2 -> c <= k < c + 2 ->
     cover_img o h w s r k = None.
@@ -198,42 +237,37 @@ Section GoodFacts.
     destruct (good_disjoint _ _ _ _ HG r k r c r1 c1 x x1) as [-> ->]; auto; try lia.
     - unfold occupies. rewrite Hk. lia.
     - unfold occupies. rewrite Hk1. exact Hin1.
+    - right. exists i1. exact Hk1.
     - rewrite Hx in Hx1. inversion Hx1; subst. congruence.
   Qed.
 
-  Lemma wide_left_not_wide : forall r c x ch,
-    gget s r c = Some x -> ckind x = KChar ch -> cw o ch = 2 -> left_wide o s r c = None.
-  Proof.
-    intros r c x ch Hx Hk Hw2. unfold left_wide. destruct c as [|c']; auto.
-    destruct (gget s r c') as [y|] eqn:Ey; auto.
-    destruct (is_wide o y) eqn:Ew; auto. exfalso.
-    unfold is_wide in Ew. destruct (ckind y) as [ch'| |] eqn:Eky; try discriminate.
-    apply Nat.eqb_eq in Ew.
-    assert (Hb : r < h /\ S c' < w) by (eapply gget_some_bounds; eauto; apply HG).
-    destruct (good_disjoint _ _ _ _ HG r (S c') r (S c') r c' x y) as [_ Hc]; auto; try lia.
-    - unfold occupies. rewrite Hk. lia.
-    - unfold occupies. rewrite Eky. lia.
-  Qed.
-
+  (* a wide character that is shown *)
   Lemma den_wide : forall r c x ch,
-    gget s r c = Some x -> ckind x = KChar ch -> cw o ch = 2 ->
+    gget s r c = Some x -> ckind x = KChar ch -> cw o ch = 2 -> hidden o s r c = false ->
     den o h w s r c = (WL ch, cface x) /\ den o h w s r (S c) = (WR, cface x).
   Proof.
-    intros r c x ch Hx Hk Hw2. unfold den.
+    intros r c x ch Hx Hk Hw2 Hh. unfold den.
     rewrite (wide_not_covered r c x ch c Hx Hk Hw2) by lia.
     rewrite (wide_not_covered r c x ch (S c) Hx Hk Hw2) by lia.
-    rewrite (wide_left_not_wide r c x ch Hx Hk Hw2). split.
-    - unfold own_glyph. rewrite Hx, Hk, Hw2. reflexivity.
-    - unfold left_wide. rewrite Hx. unfold is_wide. rewrite Hk, Hw2. reflexivity.
+    assert (Hwd : is_wide o x = true) by (unfold is_wide; rewrite Hk, Hw2; reflexivity).
+    rewrite (proj2 (left_wide_hidden o s r c) Hh).
+    rewrite (proj2 (hidden_S o s r c x Hx Hwd Hh)). split; auto.
+    unfold own_glyph. rewrite Hx, Hk, Hw2. reflexivity.
   Qed.
 
   Lemma den_narrow : forall r c x ch,
     gget s r c = Some x -> ckind x = KChar ch -> cw o ch = 1 ->
     cover_img o h w s r c = None -> left_wide o s r c = None ->
-    den o h w s r c = (glyph_of ch, cface x).
+    den o h w s r c = cell_of o ch (cface x).
   Proof.
     intros r c x ch Hx Hk Hw1 Hc Hl. unfold den. rewrite Hc, Hl.
     unfold own_glyph. rewrite Hx, Hk, Hw1. reflexivity.
+  Qed.
+
+  Lemma is_wide_char : forall y, is_wide o y = true -> exists ch, ckind y = KChar ch /\ cw o ch = 2.
+  Proof.
+    intros y H. unfold is_wide in H. destruct (ckind y) as [ch| |]; try discriminate.
+    apply Nat.eqb_eq in H. eauto.
   Qed.
 
   (* wide halves of the denotation are properly paired *)
@@ -243,11 +277,12 @@ Section GoodFacts.
     destruct (cover_img o h w s r k) as [[r0 c0]|] eqn:Ec.
     { destruct (img_at s r0 c0) as [[f i]|]; discriminate. }
     destruct (left_wide o s r k) as [f|] eqn:El; [discriminate|].
+    apply left_wide_hidden in El.
     unfold own_glyph in H. destruct (gget s r k) as [x|] eqn:Ex; [|discriminate].
     destruct (ckind x) as [ch'| |] eqn:Ek; try discriminate.
     destruct (cw o ch' =? 2) eqn:Ew.
-    - apply Nat.eqb_eq in Ew. destruct (den_wide r k x ch' Ex Ek Ew) as [_ H2]. rewrite H2. reflexivity.
-    - simpl in H. unfold glyph_of in H. destruct (N.eqb ch' space); discriminate.
+    - apply Nat.eqb_eq in Ew. destruct (den_wide r k x ch' Ex Ek Ew El) as [_ H2]. rewrite H2. reflexivity.
+    - unfold cell_of in H. destruct (N.eqb ch' space); discriminate.
   Qed.
 
   Lemma den_wr : forall r k, fst (den o h w s r k) = WR ->
@@ -257,36 +292,13 @@ Section GoodFacts.
     destruct (cover_img o h w s r k) as [[r0 c0]|] eqn:Ec.
     { destruct (img_at s r0 c0) as [[f i]|]; discriminate. }
     destruct (left_wide o s r k) as [f|] eqn:El.
-    - unfold left_wide in El. destruct k as [|k']; [discriminate|].
-      destruct (gget s r k') as [y|] eqn:Ey; [|discriminate].
-      destruct (is_wide o y) eqn:Ew; [|discriminate].
-      unfold is_wide in Ew. destruct (ckind y) as [ch| |] eqn:Eky; try discriminate.
-      apply Nat.eqb_eq in Ew.
+    - apply left_wide_some in El. destruct El as (k' & y & -> & Ey & Ew & Eh & _).
+      destruct (is_wide_char y Ew) as (ch & Eky & Ew2).
       exists k', ch. split; auto.
-      destruct (den_wide r k' y ch Ey Eky Ew) as [H1 _]. rewrite H1. reflexivity.
+      destruct (den_wide r k' y ch Ey Eky Ew2 Eh) as [H1 _]. rewrite H1. reflexivity.
     - exfalso. unfold own_glyph in H. destruct (gget s r k) as [x|] eqn:Ex; [|discriminate].
       destruct (ckind x) as [ch'| |] eqn:Ek; try discriminate.
       destruct (cw o ch' =? 2); simpl in H; try discriminate.
-      unfold glyph_of in H. destruct (N.eqb ch' space); discriminate.
-  Qed.
-
-  (* the cell behind a wide character holds a narrow character (it owns no object) *)
-  Lemma behind_wide_is_narrow : forall r c x ch y,
-    gget s r c = Some x -> ckind x = KChar ch -> cw o ch = 2 -> gget s r (S c) = Some y ->
-    exists ch', ckind y = KChar ch' /\ cw o ch' = 1.
-  Proof.
-    intros r c x ch y Hx Hk Hw2 Hy.
-    assert (Hb : r < h /\ S c < w) by (eapply gget_some_bounds; eauto; apply HG).
-    pose proof (good_cells _ _ _ _ HG r (S c) y Hy) as Hg. unfold cell_good in Hg.
-    destruct (ckind y) as [ch'|i|g] eqn:Eky.
-    - destruct Hg as [Hg|[Hg Hfit]]; eauto. exfalso.
-      destruct (good_disjoint _ _ _ _ HG r (S c) r c r (S c) x y) as [_ Hc]; auto; try lia.
-      + unfold occupies. rewrite Hk. lia.
-      + unfold occupies. rewrite Eky. lia.
-    - exfalso.
-      destruct (good_disjoint _ _ _ _ HG r (S c) r c r (S c) x y) as [_ Hc]; auto; try lia.
-      + unfold occupies. rewrite Hk. lia.
-      + unfold occupies. rewrite Eky. unfold in_rect. apply andb_true_iff. rewrite !in_range_true. lia.
-    - contradiction.
+      unfold cell_of in H. destruct (N.eqb ch' space); discriminate.
   Qed.
 End GoodFacts.
